@@ -207,3 +207,42 @@ pub proof fn lemma_tables_as_stated(s: Seq<SolverResult>, n: u64)
 {
     lemma_and3_true_iff(s);
 }
+
+// ---- flattening lemmas (used by the optimiser proofs, C01)
+pub proof fn lemma_and3_concat(a: Seq<SolverResult>, b: Seq<SolverResult>)
+    ensures and3(a + b) == and2(and3(a), and3(b)),
+    decreases a.len(),
+{
+    if a.len() == 0 {
+        assert(a + b =~= b);
+    } else {
+        assert((a + b).skip(1) =~= a.skip(1) + b);
+        assert((a + b)[0] == a[0]);
+        lemma_and3_concat(a.skip(1), b);
+    }
+}
+
+pub proof fn lemma_or3_concat(a: Seq<SolverResult>, b: Seq<SolverResult>)
+    ensures or3(a + b) == or2(or3(a), or3(b)),
+{
+    let s = a + b;
+    assert forall|r: SolverResult| any3(s, r) == (any3(a, r) || any3(b, r)) by {
+        if any3(a, r) { let i = choose|i: int| 0 <= i < a.len() && a[i] == r; assert(s[i] == r); }
+        if any3(b, r) { let i = choose|i: int| 0 <= i < b.len() && b[i] == r; assert(s[a.len() + i] == r); }
+        if any3(s, r) {
+            let i = choose|i: int| 0 <= i < s.len() && s[i] == r;
+            if i < a.len() { assert(a[i] == r); } else { assert(b[i - a.len()] == r); }
+        }
+    }
+}
+
+pub proof fn lemma_single(r: SolverResult)
+    ensures and3(seq![r]) == r, or3(seq![r]) == r,
+{
+    let s = seq![r];
+    assert(s[0] == r);
+    assert(s.skip(1) =~= Seq::<SolverResult>::empty());
+    reveal_with_fuel(and3, 2);
+    if r == SolverResult::True { assert(any3(s, SolverResult::True)); }
+    if r == SolverResult::False { assert(any3(s, SolverResult::False)); }
+}
